@@ -122,6 +122,24 @@ theorem C06_marshaled_object_covers_every_field (fs : Flds) (vs : List Val)
     ∀ e ∈ encAll fs vs 0, lookup (winners (encAll fs vs 0)) e.2.1 = some e.2.2 :=
   structCovers fs vs hf hc
 
+/-- **C06_marshaled_keys_unique_model** — whatever struct value is marshaled (any nesting of embedded fragments,
+    any number of carriers per key), the object MarshalJSON writes has every key exactly once -/
+theorem C06_marshaled_keys_unique_model (fs : Flds) (vs : List Val) :
+    ((winners (encAll fs vs 0)).map (·.1)).Nodup := by
+  unfold winners
+  exact dedup_nodup _ _
+
+/-- **C06_typename_once_model** — what the marshal helper writes for a non-nil abstract value whose implementation
+    is a struct: the key `__typename` exactly once (first, holding the name dispatched on), also when the
+    implementation has a `__typename` field of its own -/
+theorem C06_typename_once_model (fs : Flds) (vs : List Val) (tn : String) :
+    ∃ rest, encHead (.struct fs) tn (.struct vs) = .obj (("__typename", .str tn) :: rest) ∧
+      ∀ kv ∈ rest, kv.1 ≠ "__typename" := by
+  refine ⟨_, rfl, ?_⟩
+  intro kv hkv
+  have := (List.mem_filter.1 hkv).2
+  simpa using this
+
 section Witness
 /-- `user { pet { name } ...A }` with `fragment A on User { pet { age } }` -/
 def tPetName : Ty := .struct (.cons "name" false (.leaf .str) .nil)
